@@ -2,7 +2,7 @@ _c20_common = dict(harness="C20_readonly.cpp", entries=["harness_c20"], units=CO
                    rt_extra=["rt_c20.c"], rt_defines=["V_C20"], unwindset=["v_is_shared.1:601"], timeout={"quick": 900, "thorough": 2400}, mem_gb=6)
 PROPS["C20"] = dict(
   jobs=[
-    dict(name="c20-core", const_coverage=["14TopologyKernel", "15ResourceManager"], **_c20_common,
+    dict(name="c20-core", witness_any=True, const_coverage=["14TopologyKernel", "15ResourceManager"], **_c20_common,
          shards={"quick": [{0: B_TET, 1: g, 2: p, 4: sl} for g in range(6) for p in (0, 1) for sl in (range(4) if 1 <= g <= 4 else [0])],
                  "thorough": [{0: b, 1: g, 2: p, 4: sl} for b in (B_TET2_FACE, B_LOWDIM, B_HEX) for g in range(6) for p in (0, 1) for sl in (range(4) if 1 <= g <= 4 else [0])]},
          bounds="one tetrahedron (thorough: two tets, low-dimensional mesh, hexahedron), with and without a pending deferred deletion; after the epoch mark each query group runs the const API through a const reference: "
